@@ -4,7 +4,7 @@ import random
 ID = "C18"
 LEVEL = "exploration"
 RULE = ("cases: (A-activity list, B, activity amounts): O_B = solutions / parse results of spec B in a fresh process; O'_B = the same after other spec objects "
-        "A were created, fuzzed (long enough to trigger the adaptive tuner), parsed in the same process (B sets random_seed itself); pairs loading the same spec text with different options (lazy); protocol-mode pairs (A and B both run in IO mode against party classes of their own, with equal or different party names; compared: B's message sequence). Event logs are compared "
+        "A were created, fuzzed (long enough to trigger the adaptive tuner), parsed in the same process (B sets random_seed itself); pairs loading the same spec text with different options (lazy); file specs in different directories that include() a neighbour of the same name; protocol-mode pairs (A and B both run in IO mode against party classes of their own, with equal or different party names; compared: B's message sequence). Event logs are compared "
         "byte for byte; the global-limit trace (nodes.MAX_REPETITIONS at B's start/end) is recorded. On divergence a counterfactual attribution re-runs the "
         "pair with the suspected global reset to its import-time value before B; if the divergence disappears it is attributed to that mechanism, "
         "otherwise it is a fresh violation. Non-trivial: A performed >= 1 generation or parse before B; distinct by (A, B, activity).")
@@ -62,6 +62,17 @@ def cases(tier, seed):
                 "fuzz": rng.random() < 0.5, "parse_inputs": []}]
         bcfg = {"spec": spec, "lazy": b_lazy, "settings": st, "random_seed": rng.randrange(1000), "parse_inputs": [], "fuzz": True}
         out.append({"key": f"same-text-lazy{int(not b_lazy)}->lazy{int(b_lazy)}-{i}", "pre": pre, "b": bcfg, "bname": "same-text"})
+    # two projects in two directories, each with a main.fan that include()s a neighbour of the SAME name with other content
+    for i in range(8 if tier == "quick" else 60):
+        alts = [("'a' | 'b' | 'c'", "'x' | 'y' | 'z'"), ("'0' | '1'", "'7' | '8' | '9'"), ("<q> <q>\n<q> ::= 'm' | 'n'", "'k' | 'l'")][i % 3]
+        st = {"population_size": 6, "max_generations": rng.choice([5, 15]), "desired_solutions": rng.choice([4, 8])}
+        files = {"projA/base.fan": f"<item> ::= {alts[0]}\n", "projB/base.fan": f"<item> ::= {alts[1]}\n",
+                 "projA/main.fan": "include('base.fan')\n<start> ::= <item> <item>\nwhere str(<start>)[0] != str(<start>)[-1]\n",
+                 "projB/main.fan": "include('base.fan')\n<start> ::= <item> <item> <item>?\nwhere str(<start>)[0] != str(<start>)[-1]\n"}
+        pre = [{"path": "projA/main.fan", "name": "project-A", "settings": dict(st), "random_seed": rng.randrange(1000), "fuzz": rng.random() < 0.7,
+                "parse_inputs": rng.choice([[], ["s:ab"], ["s:xy"]])}]
+        bcfg = {"path": "projB/main.fan", "settings": st, "random_seed": rng.randrange(1000), "parse_inputs": ["s:xy", "s:ab", "s:78", "s:kl"], "fuzz": True}
+        out.append({"key": f"include-same-name-{i}", "pre": pre, "b": bcfg, "bname": "project-B", "files": files})
     # protocol-mode pairs: the party registry, the receive queue and the IO singleton belong to one spec object
     for i in range(14 if tier == "quick" else 120):
         same_names = i % 3 != 2
@@ -95,6 +106,36 @@ def cases(tier, seed):
 
 
 def run_case(c):
+    import threading
+    from collections import Counter
+    from properties.c17 import run_child
+
+    stats = Counter()
+    violations = []
+    tmp_root = None
+    if c.get("files"):
+        import os
+        import tempfile
+        import copy as _copy
+
+        tmp_root = tempfile.mkdtemp(prefix="vf-c18-proj-")
+        for rel, content in c["files"].items():
+            os.makedirs(os.path.dirname(os.path.join(tmp_root, rel)), exist_ok=True)
+            with open(os.path.join(tmp_root, rel), "w") as fh:
+                fh.write(content)
+        c = _copy.deepcopy(c)
+        c["b"]["path"] = os.path.join(tmp_root, c["b"]["path"])
+        for p_ in c["pre"]:
+            p_["path"] = os.path.join(tmp_root, p_["path"])
+    try:
+        return _run_pair(c)
+    finally:
+        if tmp_root:
+            import shutil
+            shutil.rmtree(tmp_root, ignore_errors=True)
+
+
+def _run_pair(c):
     import threading
     from collections import Counter
     from properties.c17 import run_child
